@@ -29,7 +29,7 @@ CHECKS = {
         dict(prop="REG", harness="api_pbt", quick=dict(count=0, workers=1), thorough=dict(count=0, workers=1)),  # regression scenarios
         dict(prop="C06", harness="api_pbt", quick=dict(count=1600, workers=8), thorough=dict(count=60000, workers=16),
              essential=_ALL_SCHEMAS + ["1.x:set_" + x for x in _SETTERS] + ["2.x:set_" + x for x in _SETTERS] +
-                       ["slot-index=%d" % i for i in range(8)] + ["shared-storage pair", "setter-rejected", "setter-via-second-handle"])]),
+                       ["slot-index=%d" % i for i in range(8)] + ["shared-storage pair", "setter-rejected", "setter-via-second-handle", "set_relative_path:path-of-another-track"])]),
     "C07": dict(level="exploration", parts=[
         dict(prop="REG", harness="api_pbt", quick=dict(count=0, workers=1), thorough=dict(count=0, workers=1)),  # regression scenarios
         dict(prop="C07", harness="api_pbt", quick=dict(count=6000, workers=8), thorough=dict(count=200000, workers=16),
@@ -136,7 +136,8 @@ CHECKS = {
         dict(prop="C02.enc", harness="codec_pbt", quick=dict(count=24000, workers=8), thorough=dict(count=2400000, workers=16),
              essential=_CODEC_ESS_KINDS + ["label=255", "payload>16KiB", "payload=chunk-multiple", "payload=chunk-multiple-1", "payload=chunk-multiple+1"]),
         dict(prop="C02.dec", harness="codec_pbt", quick=dict(count=24000, workers=8), thorough=dict(count=2400000, workers=16),
-             essential=_CODEC_ESS_KINDS + ["label=255", "zlib-stored", "foreign:flag", "foreign:zero-tail", "payload=chunk-multiple", "payload=chunk-multiple-1", "payload=chunk-multiple+1"]),
+             essential=_CODEC_ESS_KINDS + ["label=255", "zlib-stored", "foreign:flag", "foreign:zero-tail", "payload=chunk-multiple", "payload=chunk-multiple-1", "payload=chunk-multiple+1",
+                                           "after-rejected-decode"]),
         dict(prop="C02.e2e", harness="api_pbt", quick=dict(count=2400, workers=6), thorough=dict(count=100000, workers=16),
              essential=_ALL_SCHEMAS + ["write-accepted", "mode=update", "cue-slot7", "label=255", "waveform:recommended-size", "key=c_major"]),
     ]),
